@@ -8,7 +8,7 @@
     ring base width n result                              -> ok | bad
   run monitor / component ties (the driver keeps the observed state `St Ind Int`)
     cfg <std|de|alps> <elitism> <rounds> <mate_zone> <age_gap>       -> ok
-    state <init|check|aftergen> gen lastImp bestFit <ind> nLayers (allowed size <ind>*)*
+    state <init|restart|check|aftergen> gen lastImp bestFit <ind> nLayers (allowed size <ind>*)*
     sel <tour|alps|rand> n (l i)*                         -> ok | bad:<clause>
     step <family> n (l i)* <ind off> k (l i <ind>)* gen lastImp bestFit <ind best>
   tune
@@ -17,6 +17,7 @@
 -/
 import Vita.C06.Decide
 import Vita.C06.Tune
+import Vita.C06.GenEvo
 open Vita.C06
 
 /-! ### probabilities as bit patterns of doubles -/
@@ -223,6 +224,12 @@ def handle (d : DState) (ts : List String) : DState × String :=
       | "init" =>
         let d' := { d with st := st', shape0 := st'.pop.shape }
         (d', if runInvB d'.cfg d'.shape0 st' then "ok" else "bad:inv")
+      | "restart" =>
+        -- the next run on the same evolution object: `summary::clear()` as GenEvo.clearSets (the
+        -- current sources) describes it, best = pop[{0,0}], gen = 0, population carried over
+        let t := restartB d.cfg (clearTblOf GenEvo.clearSets GenEvo.clearNats) ⟨0, 0, 0, false⟩ 0 d.st st'
+        let i := runInvB d.cfg d.shape0 st'
+        ({ d with st := st' }, if !t then "bad:restart" else if !i then "bad:inv" else "ok")
       | "check" =>
         (d, if decide (d.st = st') then (if runInvB d.cfg d.shape0 st' then "ok" else "bad:inv")
             else "bad:state-diverged")
